@@ -20,13 +20,15 @@ RES_KEYS = ["params_fitted", "chi_sqr", "xmin", "xmax"]
 
 
 class PassRecorder:
-    """piggy-backs on curve_exec.OptCounter's wrappers"""
+    """Records every optimiser run the library's fitting module starts, at
+    the library boundary (lmfit.minimize): the points and the initial
+    contact point handed over, the contact point that comes back.  Nothing
+    private of the library is named or read."""
     installed = None
 
     def __init__(self):
         self.passes = []
         self.active = False
-        self._cur = None
         self.fail_next = 0
 
     @classmethod
@@ -35,62 +37,40 @@ class PassRecorder:
             return cls.installed
         curve_exec.OptCounter.install()
         import lmfit
-        from nanite import fit as nfit
         self = cls()
         prev_min = lmfit.minimize
-        prev__fit = nfit.IndentationFitter._fit
 
         def minimize(*a, **kw):
-            if self._cur is not None:
+            mine = curve_exec.called_from_fitter()
+            cur = None
+            if mine and self.active:
                 params = kw.get("params", a[1] if len(a) > 1 else None)
-                args = kw.get("args", ())
+                args = kw.get("args", a[2] if len(a) > 2 else ())
+                cur = {"cp_passed": None, "x_passed": None, "cp_out": None,
+                       "ok": False}
                 try:
-                    self._cur["cp_passed"] = float(
-                        params["contact_point"].value)
+                    cur["cp_passed"] = float(params["contact_point"].value)
                 except (KeyError, TypeError):
-                    self._cur["cp_passed"] = None
-                self._cur["x_passed"] = np.array(args[0], copy=True)
-                self._cur["weight_passed"] = args[2] if len(args) > 2 else None
-            if self.fail_next:
+                    pass
+                try:
+                    cur["x_passed"] = np.array(args[0], dtype=float,
+                                               copy=True)
+                except (IndexError, TypeError, ValueError):
+                    pass
+                self.passes.append(cur)
+            if mine and self.fail_next:
                 self.fail_next -= 1
                 raise RuntimeError("injected fault inside the optimiser")
             res = prev_min(*a, **kw)
-            if self._cur is not None:
+            if cur is not None:
+                cur["ok"] = True
                 try:
-                    self._cur["cp_out"] = float(
-                        res.params["contact_point"].value)
+                    cur["cp_out"] = float(res.params["contact_point"].value)
                 except (KeyError, TypeError, AttributeError):
-                    self._cur["cp_out"] = None
+                    pass
             return res
 
-        def _fit(fitter):
-            if not self.active:
-                return prev__fit(fitter)
-            cur = {"mask": np.array(fitter.fit_range, copy=True),
-                   "range_x": [float(v) for v in fitter.range_x],
-                   "range_type": fitter.range_type,
-                   "edelta_flag": bool(fitter.optimal_fit_edelta),
-                   "cp_passed": None, "x_passed": None, "cp_out": None}
-            try:
-                cur["cp_stored"] = float(
-                    fitter.fp["params_initial"]["contact_point"].value)
-            except (KeyError, TypeError):
-                cur["cp_stored"] = None
-            self._cur = cur
-            try:
-                return prev__fit(fitter)
-            finally:
-                self._cur = None
-                cur["ok"] = bool(fitter.fp.get("success", False))
-                try:
-                    cur["cp_fitted"] = float(
-                        fitter.fp["params_fitted"]["contact_point"].value)
-                except (KeyError, TypeError):
-                    cur["cp_fitted"] = None
-                self.passes.append(cur)
-
         lmfit.minimize = minimize
-        nfit.IndentationFitter._fit = _fit
         cls.installed = self
         return self
 
@@ -220,64 +200,122 @@ def observe_fit(idnt, kwargs, label="", post=None, fault=False):
         ("rel" if fp["range_type"] == "relative cp" else "abs")
     nsamp = int(fp["optimal_fit_num_samples"]) if edelta else 0
     req = [float(v) for v in fp["range_x"]]
-    # stored initial contact point at fit start = what the first pass saw
-    cp0 = passes[0]["cp_stored"] if passes else None
+    success = bool(fp.get("success", False))
+    # the initial contact point the caller asked for (measured units)
+    cp0 = None
+    try:
+        cp0 = float(kw["params_initial"]["contact_point"].value)
+    except (KeyError, TypeError, AttributeError):
+        pass
+    span = float(np.nanmax(x) - np.nanmin(x)) or 1.0
+    upper = float(max(req)) if len(req) == 2 else 0.
+    sm_idx = set(np.flatnonzero(seg == segreq).tolist())
+
+    def points_of(p):
+        """indices of the samples handed to the optimiser and the power of
+        k their abscissa was multiplied with (matched by value)"""
+        xp = p["x_passed"]
+        if xp is None:
+            return [], 98
+        for e in ((1, 0, 2) if k != 1 else (0,)):
+            cand = x * k ** e
+            table_e = {}
+            for j, v in enumerate(cand.tolist()):
+                table_e.setdefault(v, []).append(j)
+            vals, counts = np.unique(xp, return_counts=True)
+            if not all(v in table_e for v in vals.tolist()):
+                continue
+            idx = []
+            for v, c in zip(vals.tolist(), counts.tolist()):
+                own = [j for j in table_e[v] if j in sm_idx]
+                oth = [j for j in table_e[v] if j not in sm_idx]
+                idx += (own + oth)[:c]
+            return sorted(idx), (e if k != 1 else 99)
+        return [], 98
+
+    def expected_idx(lo, hi, zero):
+        if zero:
+            return sorted(sm_idx)
+        a_, b_ = min(lo, hi), max(lo, hi)
+        return sorted(j for j in sm_idx if a_ <= x[j] <= b_)
+
+    def near_sample(v):
+        if not math.isfinite(v):
+            return False
+        return bool(np.any((np.abs(x - v) <= 1e-9 * span) & (x != v)))
+
+    grid = None
+    if mode == "edelta" and "optimal_fit_delta_array" in fp:
+        grid = [float(v) for v in np.asarray(fp["optimal_fit_delta_array"],
+                                             float)]
     rpasses = []
-    prev_cp = None
+    g_next = 0
+    scan_matched = True
     for i, p in enumerate(passes):
-        lo, hi = p["range_x"]
-        zero = lo == hi
+        idx, xexp = points_of(p)
+        fuzzy = False
         if mode == "abs":
             kind = "abs"
+            lo, hi = (req + [0., 0.])[:2]
+            zero = lo == hi
         elif mode == "rel":
-            kind = "whole" if i == 0 and zero else "anchored"
-            if i == 0 and not zero:
-                kind = "anchored"
-            if i > 0 and zero:
-                kind = "whole"
-        else:
-            kind = "scan" if i < len(passes) - 1 or len(passes) <= nsamp \
-                else "final"
-            if i >= nsamp:
-                kind = "final"
-        anchored_ok = True
-        if kind == "anchored":
-            exp_iv = list(np.array(req) + prev_cp) if prev_cp is not None \
-                else None
-            anchored_ok = exp_iv is not None and \
-                [float(v) for v in exp_iv] == [lo, hi]
-        xexp = 99
-        cpexp = 99
-        if p["x_passed"] is not None and k != 1:
-            xm = x[p["mask"].astype(bool)]
-            if p["x_passed"].shape == xm.shape:
-                if np.array_equal(p["x_passed"], xm * k):
-                    xexp = 1
-                elif np.array_equal(p["x_passed"], xm):
-                    xexp = 0
-                elif np.array_equal(p["x_passed"], xm * k * k):
-                    xexp = 2
-                else:
-                    xexp = 98
+            if i == 0:
+                kind, lo, hi, zero = "whole", 0., 0., True
             else:
-                xexp = 98
+                kind = "anchored"
+                prev = passes[i - 1]["cp_out"]
+                if prev is None:
+                    lo, hi, zero, fuzzy = 0., 0., True, True
+                else:
+                    # anchored at the contact point of the pass before, in
+                    # measured units
+                    cpm = prev / k
+                    lo, hi = req[0] + cpm, req[1] + cpm
+                    zero = False
+                    fuzzy = near_sample(lo) or near_sample(hi)
+        else:
+            last = (i == len(passes) - 1)
+            if last and success and "optimal_fit_delta" in fp:
+                kind = "final"
+                lo, hi, zero = float(fp["optimal_fit_delta"]), upper, False
+            else:
+                kind = "scan"
+                lo, hi, zero = float("nan"), upper, False
+                if grid is not None:
+                    # the next depth of the reported grid whose points are
+                    # the ones that were fitted (depths with too few points
+                    # are skipped by the library without an optimiser run)
+                    for g in range(g_next, len(grid)):
+                        if expected_idx(grid[g], upper, False) == idx:
+                            lo, g_next = grid[g], g + 1
+                            break
+                    else:
+                        scan_matched = False
+                        lo = grid[min(g_next, len(grid) - 1)]
+                else:
+                    fuzzy = True
+                    lo = upper
+        cpexp = 99
         if p["cp_passed"] is not None and cp0 not in (None, 0.0) and k != 1:
             cpexp = exponent(p["cp_passed"] / cp0, k)
         repexp = 99
-        if p.get("cp_out") not in (None, 0.0) and p["cp_fitted"] is not None \
-                and k != 1 and p["ok"]:
-            repexp = exponent(p["cp_fitted"] / p["cp_out"], k)
+        if i == len(passes) - 1 and success and k != 1 \
+                and p.get("cp_out") not in (None, 0.0):
+            try:
+                repexp = exponent(
+                    float(fp["params_fitted"]["contact_point"].value)
+                    / p["cp_out"], k)
+            except (KeyError, TypeError, ZeroDivisionError):
+                repexp = 98
         rpasses.append({
-            "rep_exp": int(repexp),
-            "kind": kind, "lo": rank_of(table, min(lo, hi)),
-            "hi": rank_of(table, max(lo, hi)), "zero": bool(zero),
-            "mask": [int(j) + 1 for j in np.flatnonzero(p["mask"])],
-            "anchored_ok": bool(anchored_ok), "cp_exp": int(cpexp),
+            "rep_exp": int(repexp), "kind": kind,
+            "lo": rank_of(table, min(lo, hi)),
+            "hi": rank_of(table, max(lo, hi)),
+            "zero": bool(zero), "fuzzy": bool(fuzzy),
+            "mask": [int(j) + 1 for j in idx],
+            "anchored_ok": True, "cp_exp": int(cpexp),
             "x_exp": int(xexp), "ok": bool(p["ok"]),
-            "npts": int(np.sum(p["mask"]))})
-        if p["cp_fitted"] is not None:
-            prev_cp = p["cp_fitted"]
-    success = bool(fp.get("success", False))
+            "npts": len(idx)})
     out.update({
         "mode": mode, "nsamp": nsamp, "segreq": segreq,
         "seg": [int(s) for s in seg], "xr": xr,
@@ -329,20 +367,10 @@ def observe_fit(idnt, kwargs, label="", post=None, fault=False):
                                           scale=abs(xs.min())))
         dopt = float(fp["optimal_fit_delta"])
         scan["dopt_inside"] = bool(d.min() <= dopt <= d.max())
-        lastp = passes[-1]["range_x"] if passes else [np.nan, np.nan]
-        # every pass of the search fits between a depth of the grid and the
-        # requested UPPER bound (max of the pair; either may be written
-        # first when the upper bound lies inside the scanned depths)
-        upper = float(max(req)) if len(req) == 2 else 0.
-
-        def is_pair(iv, depth):
-            return sorted(float(v) for v in iv) == sorted([float(depth),
-                                                           upper])
-        scan["final_lo_is_dopt"] = bool(is_pair(lastp, dopt)) \
-            if passes else True
-        scan["passes_follow_grid"] = bool(
-            len(passes) == len(d) + 1 and
-            all(is_pair(passes[i]["range_x"], d[i]) for i in range(len(d))))
+        # (the passes of the search were matched to the reported grid
+        # above; the final pass is judged by C05_MaskExact)
+        scan["final_lo_is_dopt"] = True
+        scan["passes_follow_grid"] = bool(scan_matched)
     out["scan"] = scan
     # ------------------------------------------------ C04 relation flags
     rel = {"fit_is_model": True, "nan_outside_segment": True,
